@@ -421,9 +421,63 @@ def small_exhaustive_histories(rng, dist, limit):
     return out[:limit]
 
 
+def smallscope_histories(tier, dist, extra="", maxlen=None, finish="fins"):
+    """Small-scope exhaustive call sequences: EVERY sequence of length <= L over an alphabet of
+    accepted, refused and boundary calls, for three configurations. Timestamps come from a clock that
+    advances only on calls the muxer should accept, so a refused call that leaves a trace (a stale
+    'previous timestamp', a stored configuration, a patched duration) changes what a later accepted
+    call does. State-leak regressions need two or three specific calls in a row; this enumerates them."""
+    L = maxlen or (4 if tier == "quick" else 5)
+    r5 = random.Random(55)
+    cfgs = [("h264", "aac-lc", 1), ("h264", "aac-lc", 0), ("vp9", "opus", 1)]
+    alphabet = ["V+", "V=", "Vbad", "Vd", "Vk2", "A+", "A=", "Abad", "A-", "F"]
+    out = []
+    for codec, audio, fast in cfgs:
+        key1 = {"h264": h264_key(r5, extra=False), "vp9": vp9_key(r5)}[codec]
+        key2 = {"h264": h264_key(r5, extra=False), "vp9": vp9_key(r5)}[codec]      # other parameter sets
+        dl = {"h264": h264_delta(r5, n=3), "vp9": vp9_delta(r5)}[codec]
+        af = [audio_frame(r5, audio) for _ in range(3)]
+        abad = b"\x03" if audio == "opus" else b"\xff\xf1\x50\x80\x00\x1f"
+        cfg = cfg_str(codec=codec, audio=audio, fast=fast) + ((" " + extra) if extra else "")
+        vstep, astep = 1 / 30, 0.02
+        for k in range(1, L + 1):
+            for seq in itertools.product(alphabet, repeat=k):
+                if "F" in seq[:-1] and tier == "quick":
+                    continue                       # calls after finish: thorough only
+                tv, ta, nv, na = 0.0, 0.0, 0, 0
+                ops = []
+                for a in seq:
+                    if a == "V+":
+                        ops.append("wv %s %s %d" % (f64bits(tv), hx(key1 if nv == 0 else dl), 1 if nv == 0 else 0)); tv += vstep; nv += 1
+                    elif a == "V=":
+                        ops.append("wv %s %s 0" % (f64bits(max(tv - vstep, 0.0)), hx(dl)))
+                    elif a == "Vbad":
+                        ops.append("wv %s %s %d" % (f64bits(tv + vstep), hx(b"\x01\x02\x03"), 1 if nv == 0 else 0))
+                    elif a == "Vd":
+                        ops.append("wvd %s %s %s %d" % (f64bits(tv + 2 * vstep), f64bits(tv), hx(key1 if nv == 0 else dl), 1 if nv == 0 else 0)); tv += vstep; nv += 1
+                    elif a == "Vk2":
+                        # a key frame with other parameter sets whose pts - dts is out of the 32-bit range: refused
+                        ops.append("wvd %s %s %s 1" % (f64bits(tv + 30000.0), f64bits(tv), hx(key2)))
+                    elif a == "A+":
+                        ops.append("wa %s %s" % (f64bits(ta), hx(af[na % 3]))); ta += astep; na += 1
+                    elif a == "A=":
+                        ops.append("wa %s %s" % (f64bits(max(ta - astep, 0.0)), hx(af[na % 3]))); na += 1
+                    elif a == "Abad":
+                        ops.append("wa %s %s" % (f64bits(ta + 5 * astep), hx(abad)))
+                    elif a == "A-":
+                        ops.append("wa %s %s" % (f64bits(max(ta - 3 * astep, 0.0) if na else 0.0), hx(af[0])))
+                    else:
+                        ops.append("fins")
+                if seq[-1] != "F" and finish:
+                    ops.append(finish)
+                out.append(pcase(cfg, ops))
+    dist["smallscope_len<=%d" % L] += len(out)
+    return out
+
+
 def gen_C01(rng, tier, dist):
     return small_exhaustive_histories(rng, dist, 200 if tier == "quick" else 100000) + \
-        gen_hist_cases(rng, tier, dist, 500, 30000, rejects=0.1)
+        gen_hist_cases(rng, tier, dist, 500, 30000, rejects=0.1) + smallscope_histories(tier, dist)
 
 
 def gen_C02(rng, tier, dist):
@@ -441,7 +495,7 @@ def gen_C02(rng, tier, dist):
 
 
 def gen_C03(rng, tier, dist):
-    out = gen_hist_cases(rng, tier, dist, 400, 25000) + f64_palette_cases(rng, tier, dist)
+    out = gen_hist_cases(rng, tier, dist, 400, 25000) + f64_palette_cases(rng, tier, dist) + smallscope_histories(tier, dist)
     # long regular runs at fractional rates: drift would show
     nlong = 6 if tier == "quick" else 40
     for _ in range(nlong):
@@ -526,11 +580,12 @@ def gen_C06(rng, tier, dist):
 
 
 def gen_C09(rng, tier, dist):
-    return gen_hist_cases(rng, tier, dist, 400, 25000, audio=None)
+    return gen_hist_cases(rng, tier, dist, 400, 25000, audio=None) + smallscope_histories(tier, dist, maxlen=3 if tier == "quick" else 4)
 
 
 def gen_C08(rng, tier, dist):
-    return gen_hist_cases(rng, tier, dist, 400, 25000, extra="twin=fast", rejects=0.05)
+    return gen_hist_cases(rng, tier, dist, 400, 25000, extra="twin=fast", rejects=0.05) + \
+        smallscope_histories(tier, dist, extra="twin=fast", maxlen=3 if tier == "quick" else 4)
 
 
 def gen_C18(rng, tier, dist):
@@ -638,7 +693,7 @@ def gen_C04(rng, tier, dist):
         dist["codec=" + codec] += 1; dist["audio=" + audio] += 1
         ops = contract_history(rng, dist, codec, audio)
         out.append(pcase(cfg_str(codec=codec, audio=audio, rate=rng.choice([48000, 44100, 0]), fast=rng.randrange(2)), ops))
-    return out
+    return out + smallscope_histories(tier, dist)
 
 
 def gen_C05(rng, tier, dist):
@@ -655,7 +710,7 @@ def gen_C05(rng, tier, dist):
         else:
             cfg, ops, info = gen_history(rng, dist, codec=codec, audio=audio, rejects=0.35)
             out.append(pcase(cfg + " twin=filter", ops))
-    return out
+    return out + smallscope_histories(tier, dist, extra="twin=filter")
 
 
 def frag_cfg(rng, dist):
